@@ -574,7 +574,11 @@ def cross_entropy(
         label_smoothing=label_smoothing,
     )
     if reduction == "mean":
-        return scale_fwd(loss, 1 / batch_size)
+        if target.is_floating_point():  # class probabilities: no ignored targets
+            return scale_fwd(loss, 1 / batch_size)
+        # As in F.cross_entropy, average over the non-ignored targets
+        n_targets = (target != ignore_index).sum().to(loss.dtype)
+        return scale_fwd(loss, 1 / n_targets)  # type:ignore[arg-type]
     assert reduction == "sum"
     return loss
 
